@@ -113,9 +113,14 @@ func c18Variants() []famVariant {
 			o.Sourcemap = api.SourceMapLinked
 		}),
 		mk("names-short", func(o *api.BuildOptions) { o.ChunkNames = "[hash]"; o.AssetNames = "[hash]" }),
+		// only some of the three templates carry [hash] (the placeholder of one template must not be decided by another)
+		mk("asset-names-unhashed", func(o *api.BuildOptions) { o.AssetNames = "assets/[name]" }),
+		mk("entry-names-unhashed", func(o *api.BuildOptions) { o.EntryNames = "[dir]/[name]" }),
+		mk("chunk-names-unhashed", func(o *api.BuildOptions) { o.ChunkNames = "chunks/[name]" }),
 	}
 }
 
+var c18HasHash = regexp.MustCompile(`(^|-)[A-Z0-9]{8}(\.|$)`)
 var c18Placeholder = regexp.MustCompile(`[A-Za-z0-9_-]{16}[ACMS][0-9]{8}`)
 var c18SourceMapURL = regexp.MustCompile(`(?m)^(?://|/\*)# sourceMappingURL=([^\s*]+)`)
 var c18LegalLink = regexp.MustCompile(`For license information please see (\S+)`)
@@ -224,8 +229,27 @@ func runC18(c *Check) {
 					}
 				}
 			}
+			// which template governs an output: out/assets/* asset names, out/chunks/* chunk names, everything else entry names
+			hashedName := func(rel string) bool {
+				kind := "entry-names"
+				if strings.HasPrefix(rel, "out/assets/") {
+					kind = "asset-names"
+				} else if strings.HasPrefix(rel, "out/chunks/") {
+					kind = "chunk-names"
+				}
+				return j.v.name != kind+"-unhashed"
+			}
+			for rel := range outs {
+				// (v) a template with [hash] yields a name with eight hash characters
+				if hashedName(rel) && !c18HasHash.MatchString(filepath.Base(rel)) {
+					c.Violation("c18-empty-hash:"+label+":"+rel, map[string]interface{}{"kind": "the [hash] placeholder of the governing name template was not filled in", "case": label, "file": rel, "outputs": keysOfBytes(outs)})
+				}
+			}
 			mu.Lock()
 			for rel, data := range outs {
+				if !hashedName(rel) {
+					continue // unhashed by request: the same path may carry different bytes
+				}
 				byPath[rel] = append(byPath[rel], c18Out{label, j.v.name, sha256.Sum256(data), sha256.Sum256(c18LinkLine.ReplaceAll(data, nil)), len(data)})
 			}
 			mu.Unlock()
